@@ -786,3 +786,29 @@ func InterleaveFields(b *Batch, every int) {
 		b.Docs[di].Fields = out
 	}
 }
+
+// TwinWithThinnedSynonyms returns a copy of b under other ids of the same
+// length (oldPrefix -> newPrefix) in which some synonym definitions lost their
+// last synonym or their last left-hand term: everything a build writes before
+// the first changed synonym list has the same size in both.
+func TwinWithThinnedSynonyms(b *Batch, rng *rand.Rand, oldPrefix, newPrefix string) *Batch {
+	t := b.Clone()
+	for di := range t.Docs {
+		d := &t.Docs[di]
+		if strings.HasPrefix(d.ID, oldPrefix) && len(oldPrefix) == len(newPrefix) {
+			d.ID = newPrefix + d.ID[len(oldPrefix):]
+		}
+		for fi := range d.Syn {
+			sf := &d.Syn[fi]
+			for pi := range sf.Pairs {
+				if n := len(sf.Pairs[pi].Syns); n >= 2 && rng.Intn(2) == 0 {
+					sf.Pairs[pi].Syns = sf.Pairs[pi].Syns[:n-1]
+				}
+			}
+			if len(sf.Pairs) >= 2 && rng.Intn(4) == 0 {
+				sf.Pairs = sf.Pairs[:len(sf.Pairs)-1]
+			}
+		}
+	}
+	return t
+}
